@@ -15,10 +15,12 @@
 //	prop        (p <name> ((<param> <value>...)...) <value> <time> <dur>)
 //	            time: b | (i <unix>) | (d <unix>)     Prop.DateTime(UTC), d iff ValueType()==DATE
 //	            dur:  b | (k <seconds>)               Prop.Duration()
-//	rec         n | e | (r ((<start> <end> (<unix>...))...) (<unix>...))
-//	            Component.RecurrenceSet: nil / error / for every time range of the query the result
-//	            of rset.Between(start,end,true), then the instance starts computed independently
-//	            (DTSTART + k*INTERVAL*period, k < COUNT) from the RRULE text
+//	rec         n | e | (r (<unix>...) <horizon> (<unix>...))
+//	            Component.RecurrenceSet: nil / error / what the real rset.Iterator() yields, in
+//	            the order it yields it; the horizon: - when that is everything, else (a rule
+//	            without COUNT) the instant up to which the iterator was followed; then the
+//	            instance starts computed independently from the RRULE and EXDATE texts
+//	            (DTSTART + k*INTERVAL*period, k < COUNT, up to the horizon, minus the EXDATEs)
 //	observation (ok 0|1) | (err) | (panic)                       for match
 //	            (ok (<index>...) <unmodified 0|1>) | (err) | (panic)   for filter
 //
@@ -125,7 +127,7 @@ func parseCF(x hx.Sx) caldav.CompFilter {
 
 type trange struct{ s, e time.Time }
 
-// every comp-filter time range of the query (the table of Between results is built for these)
+// every comp-filter time range of the query (the horizon up to which a rule without end is followed lies after all of them)
 func collectRanges(f caldav.CompFilter, acc *[]trange) {
 	if !f.Start.IsZero() || !f.End.IsZero() {
 		tr := trange{f.Start, f.End}
@@ -243,13 +245,14 @@ func durSx(p *ical.Prop) string {
 }
 
 // independentInstances computes the instance starts of the bounded family
-// (FREQ=DAILY|WEEKLY;COUNT<=10[;INTERVAL=n], fixed duration, UTC) without rrule-go.
-func independentInstances(rule string, dtstart int64) ([]int64, bool) {
+// (FREQ=DAILY|WEEKLY[;COUNT<=10][;INTERVAL=n], fixed duration, UTC) without rrule-go;
+// a rule without COUNT does not end and is followed up to the horizon.
+func independentInstances(rule string, dtstart int64, horizon int64) (out []int64, unending bool, ok bool) {
 	var period, interval, count int64 = 0, 1, 0
 	for _, part := range strings.Split(rule, ";") {
 		kv := strings.SplitN(part, "=", 2)
 		if len(kv) != 2 {
-			return nil, false
+			return nil, false, false
 		}
 		switch strings.ToUpper(kv[0]) {
 		case "FREQ":
@@ -259,36 +262,43 @@ func independentInstances(rule string, dtstart int64) ([]int64, bool) {
 			case "WEEKLY":
 				period = 7 * 86400
 			default:
-				return nil, false
+				return nil, false, false
 			}
 		case "COUNT":
 			n, err := strconv.ParseInt(kv[1], 10, 64)
 			if err != nil || n < 1 || n > 10 {
-				return nil, false
+				return nil, false, false
 			}
 			count = n
 		case "INTERVAL":
 			n, err := strconv.ParseInt(kv[1], 10, 64)
 			if err != nil || n < 1 || n > 1000 {
-				return nil, false
+				return nil, false, false
 			}
 			interval = n
 		default:
-			return nil, false
+			return nil, false, false
 		}
 	}
-	if period == 0 || count == 0 {
-		return nil, false
+	if period == 0 {
+		return nil, false, false
 	}
-	var out []int64
+	if count == 0 {
+		for t := dtstart; t <= horizon; t += interval * period {
+			out = append(out, t)
+		}
+		return out, true, true
+	}
 	for k := int64(0); k < count; k++ {
 		out = append(out, dtstart+k*interval*period)
 	}
-	return out, true
+	return out, false, true
 }
 
 var outsideFamily int64
 var ofMu sync.Mutex
+
+const horizonMargin = 60 * 86400
 
 func recSx(c *ical.Component, trs []trange) string {
 	rset, err := c.RecurrenceSet(time.UTC)
@@ -298,40 +308,79 @@ func recSx(c *ical.Component, trs []trange) string {
 	if rset == nil {
 		return "n"
 	}
-	var rows []string
-	for _, tr := range trs {
-		var l []string
-		for _, t := range rset.Between(tr.s, tr.e, true) {
-			l = append(l, hx.I(t.Unix()))
-		}
-		rows = append(rows, hx.L(optTime(tr.s), optTime(tr.e), hx.L(l...)))
-	}
 	dt, _ := c.Props.DateTime(ical.PropDateTimeStart, time.UTC)
-	insts, ok := independentInstances(c.Props.Get(ical.PropRecurrenceRule).Value, dt.Unix())
+	// a rule that does not end is followed until well after every bound of the query and DTSTART
+	horizon := dt.Unix()
+	for _, tr := range trs {
+		for _, b := range []time.Time{tr.s, tr.e} {
+			if !b.IsZero() && b.Unix() > horizon {
+				horizon = b.Unix()
+			}
+		}
+	}
+	horizon += horizonMargin
+	ropt, _ := c.Props.RecurrenceRule()
+	unending := ropt != nil && ropt.Count == 0 && ropt.Until.IsZero()
+
+	// what the real iterator yields
+	var seq []int64
+	it := rset.Iterator()
+	for i := 0; unending || i < 4096; i++ {
+		t, more := it()
+		if !more {
+			unending = false // it ended after all: seq is everything
+			break
+		}
+		if unending && t.Unix() > horizon {
+			break
+		}
+		seq = append(seq, t.Unix())
+	}
+
+	// the instances, computed independently
+	insts, insUnending, ok := independentInstances(c.Props.Get(ical.PropRecurrenceRule).Value, dt.Unix(), horizon)
 	if c.Props.Get(ical.PropDateTimeStart) == nil {
 		// not in the family: rrule-go starts a rule without DTSTART at time.Now()
-		insts, ok = nil, false
+		ok = false
 	}
-	if !ok {
+	if ok && insUnending != unending {
+		ok = false
+	}
+	if ok {
+		// EXDATE: the listed instants are no instances
+		var kept []int64
+		for _, i := range insts {
+			excluded := false
+			for _, xp := range c.Props[ical.PropExceptionDates] {
+				if x, err := xp.DateTime(time.UTC); err == nil && x.Unix() == i {
+					excluded = true
+				}
+			}
+			if !excluded {
+				kept = append(kept, i)
+			}
+		}
+		insts = kept
+	} else {
 		// outside the bounded family: no independent instance list exists; fall back to
-		// rrule-go's own enumeration (bounded) and count the case
+		// rrule-go's own enumeration and count the case
 		ofMu.Lock()
 		outsideFamily++
 		ofMu.Unlock()
-		it := rset.Iterator()
-		for i := 0; i < 64; i++ {
-			t, more := it()
-			if !more {
-				break
-			}
-			insts = append(insts, t.Unix())
-		}
+		insts = seq
 	}
-	var il []string
+	var sl, il []string
+	for _, i := range seq {
+		sl = append(sl, hx.I(i))
+	}
 	for _, i := range insts {
 		il = append(il, hx.I(i))
 	}
-	return hx.L("r", hx.L(rows...), hx.L(il...))
+	hz := "-"
+	if unending {
+		hz = hx.I(horizon)
+	}
+	return hx.L("r", hx.L(sl...), hz, hx.L(il...))
 }
 
 func treeSx(c *ical.Component, trs []trange) string {
@@ -808,9 +857,13 @@ func timeGrid(emit func(string)) {
 	bad := gcomp{name: "VEVENT", props: []gprop{P("DTSTART", "garbage"), P("DTSTAMP", "garbage"), P("SUMMARY", "a")}}
 	badRule := gcomp{name: "VEVENT", props: []gprop{P("DTSTART", utc(gridBase+3600)), P("RRULE", "FREQ=BOGUS")}}
 	other := gcomp{name: "VTODO", props: []gprop{P("DTSTART", "garbage")}}
+	// a recurring event needs its extent as well: an unreadable DTEND or DURATION is an error
+	badRecEnd := gcomp{name: "VEVENT", props: []gprop{P("DTSTART", utc(gridBase+3600)), P("DTEND", "garbage"), P("RRULE", "FREQ=DAILY;COUNT=2")}}
+	badRecDur := gcomp{name: "VEVENT", props: []gprop{P("DTSTART", utc(gridBase+3600)), P("DURATION", "P1X"), P("RRULE", "FREQ=DAILY")}}
+	goodRec := gcomp{name: "VEVENT", props: []gprop{P("DTSTART", utc(gridBase-86400+1800)), P("DURATION", "PT2H"), P("RRULE", "FREQ=DAILY;COUNT=3"), P("SUMMARY", "a")}}
 	var placements []gcomp
-	for _, x := range []gcomp{good, bad, badRule, other} {
-		for _, y := range []gcomp{good, bad, badRule, other} {
+	for _, x := range []gcomp{good, bad, badRule, other, badRecEnd, badRecDur, goodRec} {
+		for _, y := range []gcomp{good, bad, badRule, other, badRecEnd, badRecDur, goodRec} {
 			placements = append(placements, cal(x, y))
 		}
 	}
@@ -846,18 +899,25 @@ func timeGrid(emit func(string)) {
 
 type recEvent struct {
 	freq     string
-	count    int
+	count    int // 0: the rule does not end
 	interval int
-	kind     int // 0 no end, 1 PT0S, 2 PT1H, 3 PT36H, 4 DTEND +2h, 5 all-day
+	kind     int  // 0 no end, 1 PT0S, 2 PT1H, 3 PT36H, 4 DTEND +2h, 5 all-day, 6 -PT1H, 7 DTEND -1h, 8 all-day P2D
+	exFirst  bool // EXDATE of the first instance
+	name     string
 }
 
+func (r recEvent) allDay() bool { return r.kind == 5 || r.kind == 8 }
+
 func (r recEvent) comp(a int64) gcomp {
-	rule := fmt.Sprintf("FREQ=%s;COUNT=%d", r.freq, r.count)
+	rule := "FREQ=" + r.freq
+	if r.count > 0 {
+		rule += fmt.Sprintf(";COUNT=%d", r.count)
+	}
 	if r.interval != 1 {
 		rule += fmt.Sprintf(";INTERVAL=%d", r.interval)
 	}
 	var props []gprop
-	if r.kind == 5 {
+	if r.allDay() {
 		props = append(props, P("DTSTART", day(a), Q("VALUE", "DATE")))
 	} else {
 		props = append(props, P("DTSTART", utc(a)))
@@ -871,45 +931,87 @@ func (r recEvent) comp(a int64) gcomp {
 		props = append(props, P("DURATION", "PT36H"))
 	case 4:
 		props = append(props, P("DTEND", utc(a+7200)))
+	case 6:
+		props = append(props, P("DURATION", "-PT1H"))
+	case 7:
+		props = append(props, P("DTEND", utc(a-3600)))
+	case 8:
+		props = append(props, P("DURATION", "P2D"))
 	}
 	props = append(props, P("RRULE", rule))
-	return gcomp{name: "VEVENT", props: props}
+	if r.exFirst {
+		if r.allDay() {
+			props = append(props, P("EXDATE", day(a), Q("VALUE", "DATE")))
+		} else {
+			props = append(props, P("EXDATE", utc(a)))
+		}
+	}
+	name := r.name
+	if name == "" {
+		name = "VEVENT"
+	}
+	return gcomp{name: name, props: props}
 }
 
-// recurring events of the bounded family against ranges around the instance boundaries
+// recurring events of the bounded family against ranges around the instance boundaries: ranges
+// inside a running instance, ending at an instance start, starting at an instance end, open at
+// either side; the first instance excluded; rules that do not end
 func recurringGrid(emit func(string)) {
 	for _, freq := range []string{"DAILY", "WEEKLY"} {
 		period := int64(86400)
 		if freq == "WEEKLY" {
 			period *= 7
 		}
-		for _, count := range []int{1, 2, 3} {
+		for _, count := range []int{1, 2, 3, 0} {
 			for _, interval := range []int{1, 2} {
-				for kind := 0; kind <= 5; kind++ {
-					a := gridBase
-					if kind == 5 {
-						a = dayBase
-					}
-					p := period * int64(interval)
-					e := recEvent{freq, count, interval, kind}
-					text := cal(e.comp(a)).text()
-					pts := []int64{a - 3600, a, a + 1800, a + 3600, a + 7200, a + p, a + p + 1800, a + p + 86400, a + 10*p}
-					for i := -1; i < len(pts); i++ {
-						for j := -1; j < len(pts); j++ {
-							if i < 0 && j < 0 {
-								continue
+				for kind := 0; kind <= 8; kind++ {
+					for _, exFirst := range []bool{false, true} {
+						e := recEvent{freq: freq, count: count, interval: interval, kind: kind, exFirst: exFirst}
+						a := gridBase
+						if e.allDay() {
+							a = dayBase
+						}
+						p := period * int64(interval)
+						text := cal(e.comp(a)).text()
+						pts := []int64{a - 3600, a, a + 1800, a + 3600, a + 7200, a + 86400, a + 129600, a + p, a + p + 1800, a + p + 86400, a + 10*p}
+						for i := -1; i < len(pts); i++ {
+							for j := -1; j < len(pts); j++ {
+								if i < 0 && j < 0 {
+									continue
+								}
+								var tr trange
+								if i >= 0 {
+									tr.s = tAt(pts[i])
+								}
+								if j >= 0 {
+									tr.e = tAt(pts[j])
+								}
+								emit(matchIn(eventFilter(tr), text))
 							}
-							var tr trange
-							if i >= 0 {
-								tr.s = tAt(pts[i])
-							}
-							if j >= 0 {
-								tr.e = tAt(pts[j])
-							}
-							emit(matchIn(eventFilter(tr), text))
 						}
 					}
 				}
+			}
+		}
+	}
+	// a rule without DTSTART has no instance to compare (rrule-go would start it at time.Now())
+	for _, rule := range []string{"FREQ=DAILY;COUNT=2", "FREQ=DAILY"} {
+		for _, extra := range [][]gprop{nil, {P("DURATION", "PT1H")}, {P("DTEND", utc(gridBase))}} {
+			text := cal(gcomp{name: "VEVENT", props: append([]gprop{P("RRULE", rule)}, extra...)}).text()
+			for _, tr := range gridRanges(gridBase, 3600) {
+				emit(matchIn(eventFilter(tr), text))
+			}
+		}
+	}
+	// a recurring component that is not an event: match.go treats its DTSTART/DTEND/DURATION alike
+	for _, kind := range []int{0, 2, 4} {
+		for _, count := range []int{2, 0} {
+			e := recEvent{freq: "DAILY", count: count, interval: 1, kind: kind, name: "VTODO"}
+			a := gridBase
+			text := cal(e.comp(a)).text()
+			for _, tr := range gridRanges(a-3600, 1800) {
+				f := CFn("VCALENDAR", false, nil, []caldav.CompFilter{{Name: "VTODO", Start: tr.s, End: tr.e}})
+				emit(matchIn(f, text))
 			}
 		}
 	}
@@ -1015,9 +1117,15 @@ func (g *gen) randComp(depth int, malformed bool) gcomp {
 			if malformed && g.r.Chance(1, 8) {
 				c.props = rest // a rule without DTSTART: go-ical starts it at the zero time
 			}
-			rule := fmt.Sprintf("FREQ=%s;COUNT=%d", g.r.Pick([]string{"DAILY", "WEEKLY"}), 1+g.r.Intn(10))
+			freq := g.r.Pick([]string{"DAILY", "WEEKLY"})
+			rule := fmt.Sprintf("FREQ=%s;COUNT=%d", freq, 1+g.r.Intn(10))
+			if g.r.Chance(1, 6) {
+				rule = "FREQ=" + freq // a rule that does not end
+			}
+			interval := int64(1)
 			if g.r.Chance(1, 3) {
-				rule += fmt.Sprintf(";INTERVAL=%d", 1+g.r.Intn(3))
+				interval = int64(1 + g.r.Intn(3))
+				rule += fmt.Sprintf(";INTERVAL=%d", interval)
 			}
 			if malformed && g.r.Chance(1, 3) {
 				rule = g.r.Pick([]string{"FREQ=BOGUS", "COUNT=3", "garbage", ""})
@@ -1027,6 +1135,33 @@ func (g *gen) randComp(depth int, malformed bool) gcomp {
 				rp.params = []gparam{Q("VALUE", "TEXT")}
 			}
 			c.props = append(c.props, rp)
+			if g.r.Chance(1, 4) {
+				// EXDATE: mostly of the first instance, sometimes a later one or no instance at all
+				for _, p := range c.props {
+					if p.name != "DTSTART" {
+						continue
+					}
+					period := int64(86400)
+					if freq == "WEEKLY" {
+						period *= 7
+					}
+					k := int64(0)
+					if g.r.Chance(1, 3) {
+						k = int64(g.r.Intn(4))
+					}
+					if len(p.params) > 0 {
+						if t, err := time.Parse("20060102", p.value); err == nil {
+							c.props = append(c.props, P("EXDATE", day(t.Unix()+k*interval*period), Q("VALUE", "DATE")))
+						}
+					} else if t, err := time.Parse(utcLayout, p.value); err == nil {
+						x := t.Unix() + k*interval*period
+						if g.r.Chance(1, 8) {
+							x += 1800
+						}
+						c.props = append(c.props, P("EXDATE", utc(x)))
+					}
+				}
+			}
 			if malformed && g.r.Chance(1, 6) {
 				c.props = append(c.props, P("EXDATE", "garbage"))
 			}
@@ -1185,6 +1320,8 @@ func filterUniverse(emit func(string)) {
 		ev(P("DTSTART", utc(gridBase)), P("DTEND", utc(gridBase+3600))),
 		ev(P("DTSTART", "garbage")),
 		"(nil)",
+		// a daily two-hour event from 09:30: both time ranges below lie inside or after a running instance
+		ev(P("DTSTART", utc(gridBase-1800)), P("DURATION", "PT2H"), P("RRULE", "FREQ=DAILY;COUNT=2")),
 	}
 	sum := func(t string) caldav.CompFilter {
 		return CFn("VCALENDAR", false, nil, []caldav.CompFilter{{Name: "VEVENT", Props: []caldav.PropFilter{{Name: "SUMMARY", TextMatch: &caldav.TextMatch{Text: t}}}}})
